@@ -9,7 +9,8 @@
     Result lists are [(case, (step, kind))]; empty = fine.  Kinds:
     1 hook outcome class differs, 2 recorded message list differs, 3 wrong denomination,
     11 a message without a matching log, 12 success but not one message per matching log,
-    13 signer differs from the event's first field;
+    13 signer differs from the event's first field, 14 a field of the native message (validator strings,
+    amount, proposal, option, weights, signer) is not VERBATIM the field of its event;
     31 tx result class differs, 32 logs differ, 33 native state after differs, 34 EVM-visible
     counters differ, 35 constants (addresses / event ids) differ, 36 ill-formed call tree;
     41 failed tx changed something, 42 state of a non-caller changed, 43 effect differs from the
@@ -108,28 +109,68 @@ Definition matching (h : hkind) (l : log) : bool :=
   bytes_eqb (l_addr l) (sys_addr h) &&
   match l_topics l with t0 :: _ => match handler_of h t0 with Some _ => true | None => false end | [] => false end.
 
-Definition matching_logs (w : nat) (logs : list log) : list log :=
-  flat_map (fun h => filter (matching h) logs) (hooks_of w).
+(** the logs a hook selection reacts to, each with the hook that reacts, in execution order *)
+Definition matching_logs (w : nat) (logs : list log) : list (hkind * log) :=
+  flat_map (fun h => map (pair h) (filter (matching h) logs)) (hooks_of w).
 
 Definition msg_signer (m : msg) : bytes :=
   match m with
   | MDelegate d _ _ | MUndelegate d _ _ | MRedelegate d _ _ _ | MWithdraw d _ | MVote d _ _ | MVoteW d _ _ => d
   end.
 
-Fixpoint signers_ok (ls : list log) (ms : list msg) : bool :=
+Fixpoint signers_ok (ls : list (hkind * log)) (ms : list msg) : bool :=
   match ls, ms with
   | _, [] => true
   | [], _ :: _ => false
-  | l :: ls', m :: ms' =>
-      (if (32 <=? length (l_data l))%nat then bytes_eqb (msg_signer m) (firstn 20 (skipn 12 (l_data l))) else true)
+  | hl :: ls', m :: ms' =>
+      (if (32 <=? length (l_data (snd hl)))%nat then bytes_eqb (msg_signer m) (firstn 20 (skipn 12 (l_data (snd hl)))) else true)
       && signers_ok ls' ms'
+  end.
+
+(** "exactly the validator, amount, proposal and options it passed": the recorded message (weights as the
+    SDK decimal, scaled by 10^18) carries the event's fields verbatim — no cast, no truncation, no swap *)
+Definition verbatim (ev : event) (m : msg) : bool :=
+  match ev, m with
+  | EDelegated d v (Some a), MDelegate d' v' a' | EUndelegated d v (Some a), MUndelegate d' v' a' =>
+      bytes_eqb d d' && bytes_eqb v v' && (a' =? Z.of_N a)
+  | ERedelegated d s t (Some a), MRedelegate d' s' t' a' =>
+      bytes_eqb d d' && bytes_eqb s s' && bytes_eqb t t' && (a' =? Z.of_N a)
+  | EWithdrew d v, MWithdraw d' v' => bytes_eqb d d' && bytes_eqb v v'
+  | EVoted d p o, MVote d' p' o' => bytes_eqb d d' && N.eqb p p' && (o' =? Z.of_N o)
+  | EVotedW d p os, MVoteW d' p' os' =>
+      bytes_eqb d d' && N.eqb p p' &&
+      list_eqb (pair_eqb Z.eqb Z.eqb) os' (map (fun ow => (Z.of_N (fst ow), Z.of_N (snd ow) * dec16)) os)
+  | _, _ => false
+  end.
+
+(** the event is read off the log with the ABI decoder of the hook's own event table; a message for a log
+    that does not decode is a failure, too *)
+Definition fields_ok (hl : hkind * log) (m : msg) : bool :=
+  match l_topics (snd hl) with
+  | t0 :: _ =>
+      match handler_of (fst hl) t0 with
+      | Some k =>
+          match parse_log k (length (l_topics (snd hl))) (l_data (snd hl)) with
+          | Some ev => verbatim ev m
+          | None => false
+          end
+      | None => false
+      end
+  | [] => false
+  end.
+
+Fixpoint all_fields_ok (ls : list (hkind * log)) (ms : list msg) : bool :=
+  match ls, ms with
+  | hl :: ls', m :: ms' => fields_ok hl m && all_fields_ok ls' ms'
+  | _, _ => true
   end.
 
 Definition mon_hcase (c : hcase) : list (nat * nat) :=
   let ml := matching_logs (hc_which c) (hc_logs c) in
   if (length ml <? length (hc_msgs c))%nat then [(0, 11)%nat]
   else if Nat.eqb (hc_class c) 0 && negb (Nat.eqb (length ml) (length (hc_msgs c))) then [(0, 12)%nat]
-  else if negb (signers_ok ml (hc_msgs c)) then [(0, 13)%nat] else [].
+  else if negb (signers_ok ml (hc_msgs c)) then [(0, 13)%nat]
+  else if negb (all_fields_ok ml (hc_msgs c)) then [(0, 14)%nat] else [].
 
 Definition hook_monitor_failures (cs : list hcase) : list (nat * (nat * nat)) :=
   flat_map (fun ic => map (fun m => (fst ic, m)) (mon_hcase (snd ic))) (number 0 cs).
